@@ -70,6 +70,9 @@ def cases(tier, seed):
                         "kind": "composite", "members": list(sub),
                         "tier": tier})
     out.append({"id": "rigidcluster", "kind": "rigid", "tier": tier})
+    out.append({"id": "composite:nested", "kind": "nested", "tier": tier})
+    out.append({"id": "points:mixed-magnitudes", "kind": "mixedmag",
+                "tier": tier})
     return out
 
 
@@ -453,6 +456,96 @@ def _run_composite(case, ck):
     return digest(*acc)
 
 
+def _leaves(comp, out):
+    for s in comp.scatterers:
+        if hasattr(s, "scatterers"):
+            _leaves(s, out)
+        else:
+            out.append(np.asarray(s.center, float))
+    return out
+
+
+def _run_nested(case, ck):
+    """composites whose members are composites themselves: a rotation moves
+    every sphere rigidly (all difference vectors turn by the same matrix)"""
+    import warnings
+    from holopy.scattering import Scatterers, Spheres, Sphere
+    acc = []
+
+    def dimer(c, d):
+        c, d = np.array(c, float), np.array(d, float)
+        return Spheres([Sphere(n=1.5, r=0.2, center=tuple(c - d)),
+                        Sphere(n=1.6, r=0.25, center=tuple(c + d))])
+    with warnings.catch_warnings():
+        warnings.simplefilter("ignore")
+        builds = [
+            Scatterers([dimer((0, 0, 5), (0.5, 0.1, 0)),
+                        dimer((3, 1, 6), (0, 0.4, 0.3))]),
+            Scatterers([dimer((0, 0, 5), (0.5, 0.1, 0)),
+                        Sphere(n=1.4, r=0.3, center=(2.0, -1.0, 4.0))]),
+            Spheres([Sphere(n=1.5, r=0.2, center=(0, 0, 5)),
+                     Sphere(n=1.5, r=0.2, center=(1, 0.5, 5.5)),
+                     Sphere(n=1.5, r=0.2, center=(-0.4, 1.2, 4.1))]),
+        ]
+    for bi, comp in enumerate(builds):
+        L0 = np.array(_leaves(comp, []))
+        for rot in ROT[case["tier"]]:
+            with warnings.catch_warnings():
+                warnings.simplefilter("ignore")
+                new = comp.rotated(*rot)
+            ck.trans += 1
+            L1 = np.array(_leaves(new, []))
+            ok = L1.shape == L0.shape
+            ck.true("rot-type", ok, "rotated() changed the number of "
+                    "spheres of nested composite #%d" % bi)
+            if not ok:
+                continue
+            R = euler_zyz(*rot)
+            D0 = L0[:, None] - L0[None]
+            D1 = L1[:, None] - L1[None]
+            e = float(np.abs(D1 - D0 @ R.T).max() /
+                      max(1.0, np.abs(D0).max()))
+            ck.metric("rot_nested", e)
+            ck.true("rot-distances", e <= 1e-11, "nested composite #%d "
+                    "rotated by %r: the difference vectors between its "
+                    "spheres are not the rotated ones (err %.2e)" %
+                    (bi, rot, e))
+            acc.append(np.round(L1, 8))
+    return digest(*acc)
+
+
+def _run_mixedmag(case, ck):
+    """points of very different magnitude converted in ONE call: every
+    point's result is that of the point converted alone"""
+    from holopy.core.math import find_transformation_function as ftf
+    P = np.array([[1e-90, -2e-90, 3e-90], [1e90, 2e90, -3e90],
+                  [1.0, -2.0, 3.0], [3e-120, 4e-120, 0.0],
+                  [0.0, 5e80, 1e80]]).T            # shape (3, npts)
+    acc = []
+    for a, b in (("cartesian", "spherical"), ("cartesian", "cylindrical"),
+                 ("cylindrical", "spherical"), ("spherical", "cartesian"),
+                 ("cylindrical", "cartesian"), ("spherical", "cylindrical")):
+        if a == "cartesian":
+            src = P
+        else:
+            src = np.asarray(ftf("cartesian", a)(P), float)
+        together = np.asarray(ftf(a, b)(src), float)
+        ck.trans += 1
+        for j in range(src.shape[1]):
+            alone = np.asarray(ftf(a, b)(src[:, j:j + 1]), float)[:, 0]
+            ck.trans += 1
+            sc = max(np.abs(alone).max(), 1e-300)
+            e = float(np.abs(together[:, j] - alone).max() / sc)
+            ck.true("per-point", e <= 1e-15 or
+                    bool(np.array_equal(together[:, j], alone)),
+                    "%s -> %s: point %r converted together with points of "
+                    "other magnitudes gives %r, alone %r" %
+                    (a, b, src[:, j].tolist(), together[:, j].tolist(),
+                     alone.tolist()))
+        acc.append(np.nan_to_num(together))
+    return digest(*acc)
+
+
 def _run_rigid(case, ck):
     import warnings
     from holopy.scattering import Spheres
@@ -494,7 +587,8 @@ def _run_rigid(case, ck):
 def run_case(case):
     ck = Checker()
     fp = {"points": _run_points, "angles": _run_angles,
-          "composite": _run_composite, "rigid": _run_rigid}[case["kind"]](
+          "composite": _run_composite, "rigid": _run_rigid,
+          "nested": _run_nested, "mixedmag": _run_mixedmag}[case["kind"]](
               case, ck)
     return ck.result(fp=fp)
 
